@@ -20,7 +20,19 @@ def _block3_traces(ck, wd, exe, sf, nsys, tier, seed):
         cls = "hang" if "HANG" in err else "crash"
         ck.violation({"class": cls, "mode": "trace"}, {"what": "nnls driver ended abnormally while tracing block3 (%s)" % cls, "stderr": err[-2500:]})
         return 0
+    # a fixed catalogue of 3x3 / 4x4 systems on which the solver takes the walk_descents branch (rare among the enumerated
+    # systems): found by a one-off search, kept in spec/block3_walk_systems.ndjson, traced completely in both tiers
+    tr2 = os.path.join(wd, "block3w.ndjson")
+    rc, so, err, _ = vlib.run_driver(exe, ["trace", os.path.join(vlib.SPEC, "block3_walk_systems.ndjson"), "1", "0", tr2], timeout=900, env={"OMP_NUM_THREADS": "2"})
+    if rc != 0:
+        cls = "hang" if "HANG" in err else "crash"
+        ck.violation({"class": cls, "mode": "trace"}, {"what": "nnls driver ended abnormally while tracing block3 on the walk catalogue (%s)" % cls, "stderr": err[-2500:]})
+        return 0
+    with open(tr, "a") as f:
+        f.write(open(tr2).read())
     lines = [l for l in open(tr)]
+    import collections
+    ck.cov["block3_phase_counts"] = dict(collections.Counter(json.loads(l)["e"] for l in lines))
     nexec = sum(1 for l in lines if l.startswith('{"e":"start"'))
     if nexec == 0 or not any(l.startswith('{"e":"release"') for l in lines):
         # the hook is not compiled in / not called: the binding is gone - that is an infrastructure problem, not a verdict
